@@ -236,9 +236,13 @@ def run(ctx):
                 (64, (2, 4, 8), 'conv3', None, {'mode': 'eval'}), (64, (2, 4, 8), 'res', None, {'disable_shared_quantizers': True, 'temperature': 5.0}),
                 (64, (2, 4, 8), 'conv3', None, {'alpha_grid': 0.5}), (32, (2, 4, 8), 'conv3only', None, {'alpha_grid': 1.0}), (64, (0, 2, 4, 8), 'conv3', None, {'alpha_grid': 0.5, 'mode': 'eval'}),
                 (64, (2, 4, 8), 'conv3', None, {'freeze': True}), (64, (2, 4, 8), 'conv3', (30, 20, 14), {'freeze': True, 'hard_softmax': True}), (32, (2, 4, 8), 'conv3only', (20, 12, 0), {'freeze': True, 'hard_softmax': True}), (32, (2, 4, 8), 'conv3only', (20, 12, 0), {'freeze': True}), (64, (2, 4, 8), 'res', None, {'freeze': True, 'disable_shared_quantizers': True})]
+    optioned += [(64, (2, 4, 8), 'conv3', None, {'call': 'no_grad'}), (32, (2, 4, 8), 'conv3only', (20, 12, 0), {'call': 'no_grad'}), (40, (2, 4, 8), 'conv3', None, {'call': 'no_grad', 'temperature': 5.0}),
+                 (64, (0, 2, 4, 8), 'conv3only', (8, 0, 20, 36), {'call': 'no_grad'}), (64, (2, 4, 8), 'dw', None, {'call': 'no_grad', 'disable_shared_quantizers': True})]
     if not ctx.quick:
         for _ in range(24):
             o = {}
+            if ctx.rng.random() < 0.25:
+                o['call'] = 'no_grad'
             if ctx.rng.random() < 0.5:
                 o['disable_shared_quantizers'] = True
             r = ctx.rng.random()
@@ -259,7 +263,7 @@ def run(ctx):
         rec = {'C': C, 'precisions': list(precs), 'kind': kind, 'seed': seed, 'start_counts': counts, 'options': opts, 'layers': {}}
         ascending = list(precs) == sorted(precs)
         try:
-            m = build_mps(torch, C, precs, seed, kind, counts, **{k: v for k, v in opts.items() if k not in ('mode', 'alpha_grid', 'freeze')})
+            m = build_mps(torch, C, precs, seed, kind, counts, **{k: v for k, v in opts.items() if k not in ('mode', 'alpha_grid', 'freeze', 'call')})
             if opts.get('alpha_grid'):
                 # coefficients on a coarse grid (hand-set values, a rounded checkpoint): exact ties, also at the maximum of a channel
                 with torch.no_grad():
@@ -286,9 +290,18 @@ def run(ctx):
                 dyadic = sum(init) & (sum(init) - 1) == 0
                 tables[n] = (order, ps, init, cost_table(torch, utils, m, n, l, init, order) if dyadic else None)
             buf = io.StringIO()
-            with contextlib.redirect_stdout(buf):
-                utils.optimize_prec_assignment(m, 'ne16')
-            m(m._input_example)
+            if opts.get('call') == 'no_grad':
+                # the refinement called from an evaluation block: the model as a search leaves it (training mode, soft
+                # coefficients) and the caller inside torch.no_grad()
+                m.update_softmax_options(hard=False)
+                m(m._input_example)
+                with torch.no_grad(), contextlib.redirect_stdout(buf):
+                    utils.optimize_prec_assignment(m, 'ne16')
+                    m(m._input_example)
+            else:
+                with contextlib.redirect_stdout(buf):
+                    utils.optimize_prec_assignment(m, 'ne16')
+                m(m._input_example)
             after = {n: chan_prec(l) for n, l in layers.items()}
             after_idx = {n: [int(i) for i in l.w_mps_quantizer.alpha.argmax(dim=0)] for n, l in layers.items()}
             # what the returned model actually EVALUATES: the refinement ends with a forward pass that refreshes the sampled coefficients
@@ -308,7 +321,10 @@ def run(ctx):
             qids = [id(l.w_mps_quantizer) for l in layers.values()]
             shared = len(set(qids)) < len(qids)
             rec['shared_weight_quantizer'] = shared
-            key_sfx = ':shared-weight-quantizer' if shared else ''      # (non-ascending precision tuples were repaired: no suffix, no known finding)
+            # (non-ascending precision tuples were repaired: no suffix, no known finding).  Layers that share ONE weight selector
+            # although the model was built with disable_shared_quantizers=True are not the known finding (which is about the
+            # default sharing inside a sharing group): another key
+            key_sfx = '' if not shared else ':weight-selector-shared-although-sharing-is-disabled' if opts.get('disable_shared_quantizers') else ':shared-weight-quantizer'
             info = {k: v for k, v in rec.items() if k != 'layers'}
             info['layers'] = {n: {k: v for k, v in d.items() if k not in ('table', 'alpha_before', 'own_index_after')} for n, d in rec['layers'].items()}
             oracle(all(d['demoted_channels'] == 0 for d in rec['layers'].values()), 'refine-demotes-channel' + key_sfx, info)
